@@ -37,7 +37,10 @@ def _cache_key(expr, f=None):
     """If expr is <...>BUILD_STATUS_CACHE[<key>] (possibly through a local
     that names that entry) return src(key)."""
     if f is not None and isinstance(expr, ast.Name):
-        expr = substitute_locals(f, expr, paths_only=True)
+        full = substitute_locals(f, expr, depth=1)
+        expr = full if isinstance(full, ast.Subscript) and \
+            (dotted(full.value) or '').endswith('BUILD_STATUS_CACHE') \
+            else substitute_locals(f, expr, paths_only=True)
     if isinstance(expr, ast.Subscript) and \
             (dotted(expr.value) or '').endswith('BUILD_STATUS_CACHE'):
         return src(expr.slice)
